@@ -110,6 +110,9 @@ def run_wt(sid, checks, tier='quick'):
         shutil.copy('/repo/lib/yaml/_yaml.cpython-312-x86_64-linux-gnu.so', wt + '/lib/yaml/')
         shutil.copy('/repo/yaml/_yaml.c', wt + '/yaml/')
         a = sh(['git', '-C', wt, 'apply', os.path.join(dst, 'patch.diff')])
+        if a.returncode and '_yaml.c' in open(os.path.join(dst, 'patch.diff')).read(300):
+            # own changes to the generated glue are plain 'diff -u' patches with scratch paths: apply to yaml/_yaml.c by name
+            a = sh('patch -s %s/yaml/_yaml.c < %s' % (wt, os.path.join(dst, 'patch.diff')))
         if a.returncode:
             print('%s: patch does not apply: %s' % (sid, a.stderr[:200]))
             meta.setdefault('detected_by', {})['apply'] = {'verdict': 'patch no longer applies to HEAD', 'violations_listed': 0, 'first': a.stderr[:200]}
